@@ -149,31 +149,133 @@ Proof.
 Qed.
 
 (* the whole counting slice: a result, CParsingError (parenthesis never closed), or AttributeError - the latter only from
-   new_error on a missing token (EXP_PARENTHESIS / TOO_MANY_ARGS when the tokens end right there) *)
+   new_error on a missing token.  The proof script does not depend on which token expression the TOO_MANY_ARGS call passes
+   (`peek_token(i)` before the repair, `peek_token(i) or peek_token(i - 1)` after it). *)
+Definition outcome3 {A} (r : outcome A) : Prop :=
+  (exists a, r = Ok a) \/ (exists m, r = Fatal m) \/ r = Crash AttributeError.
+Lemma outcome3_bind {A B} (x : outcome A) (f : A -> outcome B) :
+  (exists a, x = Ok a) \/ (exists m, x = Fatal m) -> (forall a, outcome3 (f a)) -> outcome3 (bind x f).
+Proof. intros [[a ->]|[m ->]] H; cbn [bind]; [apply H | right; left; eexists; reflexivity]. Qed.
+
 Theorem check_func_decl_args_outcomes : forall toks scope fname_pos v, -1 <= fname_pos ->
   (exists r, check_func_decl_args toks scope fname_pos v = Ok r) \/
   (exists m, check_func_decl_args toks scope fname_pos v = Fatal m) \/
   check_func_decl_args toks scope fname_pos v = Crash AttributeError.
 Proof.
+  intros toks scope fname_pos v Hp. change (outcome3 (check_func_decl_args toks scope fname_pos v)).
+  unfold check_func_decl_args. cbv zeta.
+  set (i0 := skip_while toks (fun x_i => is_true (checkl toks x_i [s "RPARENTHESIS"])) (fname_pos + 1)).
+  assert (H0 : fname_pos + 1 <= i0) by apply skip_while_f_ge.
+  pose proof (skip_while_f_ge (loop_fuel toks) (fun i => truthy (checkl toks i ws_no_nl)) i0) as H1.
+  fold (skip_while toks (fun i => truthy (checkl toks i ws_no_nl)) i0) in H1. fold (skip_ws toks i0) in H1.
+  assert (Loop : forall E, (exists r, check_func_decl_args_loop1 (loop_fuel toks) toks scope 1 (skip_ws toks i0 + 1) 1 E v = Ok r) \/
+                           (exists m, check_func_decl_args_loop1 (loop_fuel toks) toks scope 1 (skip_ws toks i0 + 1) 1 E v = Fatal m)).
+  { intros E. apply args_loop_total; [lia | unfold loop_fuel, zlen; lia]. }
+  assert (Tail : forall (f : Z * Z * Z * list em * view -> outcome (Z * Z * list em)) E,
+            (forall st, outcome3 (f st)) ->
+            outcome3 (bind (check_func_decl_args_loop1 (loop_fuel toks) toks scope 1 (skip_ws toks i0 + 1) 1 E v) f)).
+  { intros f E Hf. apply outcome3_bind; [apply Loop | exact Hf]. }
+  assert (Last : forall st : Z * Z * Z * list em * view, outcome3 (let '(x_arg, x_i, x_deep, E, v) := st in
+            if x_arg >? 4 then bind (emit (s "TOO_MANY_ARGS") (peek toks x_i) E) (fun E => Ok (x_arg, x_i, E)) else Ok (x_arg, x_i, E)) /\
+          outcome3 (let '(x_arg, x_i, x_deep, E, v) := st in
+            if x_arg >? 4 then bind (emit (s "TOO_MANY_ARGS") (or_tok (peek toks x_i) (peek toks (x_i - 1))) E) (fun E => Ok (x_arg, x_i, E)) else Ok (x_arg, x_i, E))).
+  { intros [[[[a i1] d] E1] v1]. split; (destruct (a >? 4); [|left; eexists; reflexivity]).
+    - destruct (peek toks i1); cbn [emit bind]; [left; eexists; reflexivity | right; right; reflexivity].
+    - destruct (or_tok (peek toks i1) (peek toks (i1 - 1))); cbn [emit bind]; [left; eexists; reflexivity | right; right; reflexivity]. }
+  destruct (is_false (check1 toks i0 (s "LPARENTHESIS"))).
+  - destruct (peek toks i0); cbn [emit bind]; [|right; right; reflexivity].
+    apply Tail. intros st. first [exact (proj1 (Last st)) | exact (proj2 (Last st))].
+  - apply Tail. intros st. first [exact (proj1 (Last st)) | exact (proj2 (Last st))].
+Qed.
+
+(* ---- after the repair of the TOO_MANY_ARGS call (`peek_token(i) or peek_token(i - 1)`): no AttributeError is left.
+   skip_nest returns a position inside the tokens; the parameter loop either does not move at all or ends at most one past the
+   last token; more than one counted parameter means that it moved, so the token before its end exists; and EXP_PARENTHESIS
+   is only emitted on an existing token (check_token(...) is False needs one). *)
+Definition nest_ok2 (toks : list token) (r : outcome Z) (pos : Z) : Prop :=
+  (exists j, r = Ok j /\ pos <= j < zlen toks) \/ (exists m, r = Fatal m).
+Lemma skip_nest_fuel2 toks : forall fuel,
+  (forall pos, 0 <= pos -> 2 * (zlen toks - pos) <= Z.of_nat fuel -> 1 <= Z.of_nat fuel -> nest_ok2 toks (skip_nest_f fuel toks pos) pos) /\
+  (forall c i, 0 <= i -> 2 * (zlen toks - i) + 1 <= Z.of_nat fuel -> 1 <= Z.of_nat fuel -> nest_ok2 toks (nest_scan_f fuel toks c i) i).
+Proof.
+  induction fuel as [|f [IHs IHn]]; [split; intros; lia|]. split.
+  - intros pos Hp Hf _. cbn [skip_nest_f]. destruct (peek toks pos) as [t|] eqn:E; [|right; eexists; reflexivity].
+    pose proof (peek_some_lt0 toks pos t Hp E). destruct (closer_of (t_type t)) as [c|]; [|left; eexists; split; [reflexivity|lia]].
+    destruct (IHn c (pos + 1)) as [[j [R Hj]]|[m R]]; try lia; rewrite R; [left; eexists; split; [reflexivity|lia]|right; eexists; reflexivity].
+  - intros c i Hi Hf _. cbn [nest_scan_f]. destruct (peek toks i) as [t|] eqn:E; [|right; eexists; reflexivity].
+    pose proof (peek_some_lt0 toks i t Hi E).
+    destruct (str_in (t_type t) nest_openers).
+    + destruct (IHs i) as [[j [R Hj]]|[m R]]; try lia; rewrite R; [|right; eexists; reflexivity].
+      destruct (IHn c (j + 1)) as [[j2 [R2 Hj2]]|[m R2]]; try lia; rewrite R2; [left; eexists; split; [reflexivity|lia]|right; eexists; reflexivity].
+    + destruct (str_in (t_type t) nest_closers && str_eqb c (t_type t)); [left; eexists; split; [reflexivity|lia]|].
+      destruct (IHn c (i + 1)) as [[j [R Hj]]|[m R]]; try lia; rewrite R; [left; eexists; split; [reflexivity|lia]|right; eexists; reflexivity].
+Qed.
+Lemma skip_nest_total2 : forall toks pos, 0 <= pos -> nest_ok2 toks (skip_nest toks pos) pos.
+Proof.
+  intros toks pos Hp. unfold skip_nest. apply (proj1 (skip_nest_fuel2 toks (loop_fuel toks))); [exact Hp| |];
+    unfold loop_fuel, zlen; lia.
+Qed.
+
+Lemma args_loop_total2 toks scope : forall fuel arg i deep E v, 0 <= i -> Z.max 0 (zlen toks - i) < Z.of_nat fuel ->
+  (exists a i1 d E1 v1, check_func_decl_args_loop1 fuel toks scope arg i deep E v = Ok (a, i1, d, E1, v1) /\
+        ((a = arg /\ i1 = i) \/ 1 <= i1 <= zlen toks)) \/
+  (exists m, check_func_decl_args_loop1 fuel toks scope arg i deep E v = Fatal m).
+Proof.
+  induction fuel as [|f IH]; intros arg i deep E v Hi Hf; [lia|].
+  cbn [check_func_decl_args_loop1]. cbv zeta.
+  destruct ((deep >? 0) && negb (is_none (peek toks i))) eqn:C;
+    [|left; do 5 eexists; split; [reflexivity|left; split; reflexivity]].
+  apply andb_true_iff in C as [_ C]. destruct (peek toks i) as [t|] eqn:P; [|discriminate].
+  pose proof (peek_some_lt0 toks i t Hi P).
+  assert (Step : forall arg' i' deep', i <= i' < zlen toks ->
+     (exists a i1 d E1 v1, check_func_decl_args_loop1 f toks scope arg' (i' + 1) deep' E v = Ok (a, i1, d, E1, v1) /\
+        ((a = arg /\ i1 = i) \/ 1 <= i1 <= zlen toks)) \/
+     (exists m, check_func_decl_args_loop1 f toks scope arg' (i' + 1) deep' E v = Fatal m)).
+  { intros arg' i' deep' Hi'. destruct (IH arg' (i' + 1) deep' E v) as [[a [i1 [d [E1 [v1 [R Q]]]]]]|[m R]]; try lia.
+    - left. exists a, i1, d, E1, v1. split; [exact R|]. right. destruct Q as [[_ ->]|Q]; lia.
+    - right. exists m. exact R. }
+  destruct (truthy (check1 toks i (s "LPARENTHESIS"))).
+  - destruct (skip_nest_total2 toks i Hi) as [[j [R Hj]]|[m R]]; rewrite R; cbn [bind]; [apply Step; lia|right; eexists; reflexivity].
+  - destruct (truthy (check1 toks i (s "RPARENTHESIS"))); [apply Step; lia|].
+    destruct (truthy (check1 toks i (s "COMMA"))); apply Step; lia.
+Qed.
+
+Lemma peek_in_range toks k : 0 <= k < zlen toks -> exists t, peek toks k = Some t.
+Proof.
+  intros H. unfold peek, py_nth. cbv zeta.
+  assert (A : (0 <=? k) && (k <? zlen toks) = true) by (apply andb_true_iff; split; [apply Z.leb_le | apply Z.ltb_lt]; lia).
+  rewrite A. destruct (nth_error toks (Z.to_nat k)) as [t|] eqn:N; [exists t; reflexivity|].
+  apply nth_error_None in N. unfold zlen in H. lia.
+Qed.
+
+(* with the repaired call: a result or CParsingError, nothing else *)
+Theorem check_func_decl_args_total : forall toks scope fname_pos v, -1 <= fname_pos ->
+  (exists r, check_func_decl_args toks scope fname_pos v = Ok r) \/
+  (exists m, check_func_decl_args toks scope fname_pos v = Fatal m).
+Proof.
   intros toks scope fname_pos v Hp. unfold check_func_decl_args. cbv zeta.
   set (i0 := skip_while toks (fun x_i => is_true (checkl toks x_i [s "RPARENTHESIS"])) (fname_pos + 1)).
   assert (H0 : fname_pos + 1 <= i0) by apply skip_while_f_ge.
-  assert (Tail : forall E, (exists r, (bind (check_func_decl_args_loop1 (loop_fuel toks) toks scope 1 (skip_ws toks i0 + 1) 1 E v)
-              (fun st => let '(x_arg, x_i, x_deep, E, v) := st in
-                 if x_arg >? 4 then bind (emit (s "TOO_MANY_ARGS") (peek toks x_i) E) (fun E => Ok (x_arg, x_i, E)) else Ok (x_arg, x_i, E))) = Ok r) \/
-            (exists m, (bind (check_func_decl_args_loop1 (loop_fuel toks) toks scope 1 (skip_ws toks i0 + 1) 1 E v)
-              (fun st => let '(x_arg, x_i, x_deep, E, v) := st in
-                 if x_arg >? 4 then bind (emit (s "TOO_MANY_ARGS") (peek toks x_i) E) (fun E => Ok (x_arg, x_i, E)) else Ok (x_arg, x_i, E))) = Fatal m) \/
-            (bind (check_func_decl_args_loop1 (loop_fuel toks) toks scope 1 (skip_ws toks i0 + 1) 1 E v)
-              (fun st => let '(x_arg, x_i, x_deep, E, v) := st in
-                 if x_arg >? 4 then bind (emit (s "TOO_MANY_ARGS") (peek toks x_i) E) (fun E => Ok (x_arg, x_i, E)) else Ok (x_arg, x_i, E))) = Crash AttributeError).
-  { intros E. pose proof (skip_while_f_ge (loop_fuel toks) (fun i => truthy (checkl toks i ws_no_nl)) i0) as H1. fold (skip_while toks (fun i => truthy (checkl toks i ws_no_nl)) i0) in H1. fold (skip_ws toks i0) in H1.
-    destruct (args_loop_total toks scope (loop_fuel toks) 1 (skip_ws toks i0 + 1) 1 E v) as [[[[[[a i1] d] E1] v1] R]|[m R]]; [lia|unfold loop_fuel, zlen; lia| |].
-    - rewrite R. cbn [bind]. destruct (a >? 4); [|left; eexists; reflexivity].
-      destruct (peek toks i1); cbn [emit bind]; [left; eexists; reflexivity|right; right; reflexivity].
-    - rewrite R. right. left. eexists. reflexivity. }
-  destruct (is_false (check1 toks i0 (s "LPARENTHESIS"))); [|apply Tail].
-  destruct (peek toks i0); cbn [emit bind]; [apply Tail|right; right; reflexivity].
+  pose proof (skip_while_f_ge (loop_fuel toks) (fun i => truthy (checkl toks i ws_no_nl)) i0) as H1.
+  fold (skip_while toks (fun i => truthy (checkl toks i ws_no_nl)) i0) in H1. fold (skip_ws toks i0) in H1.
+  assert (Tail : forall E,
+     (exists r, bind (check_func_decl_args_loop1 (loop_fuel toks) toks scope 1 (skip_ws toks i0 + 1) 1 E v)
+        (fun st => let '(x_arg, x_i, x_deep, E, v) := st in
+           if x_arg >? 4 then bind (emit (s "TOO_MANY_ARGS") (or_tok (peek toks x_i) (peek toks (x_i - 1))) E) (fun E => Ok (x_arg, x_i, E))
+           else Ok (x_arg, x_i, E)) = Ok r) \/
+     (exists m, bind (check_func_decl_args_loop1 (loop_fuel toks) toks scope 1 (skip_ws toks i0 + 1) 1 E v)
+        (fun st => let '(x_arg, x_i, x_deep, E, v) := st in
+           if x_arg >? 4 then bind (emit (s "TOO_MANY_ARGS") (or_tok (peek toks x_i) (peek toks (x_i - 1))) E) (fun E => Ok (x_arg, x_i, E))
+           else Ok (x_arg, x_i, E)) = Fatal m)).
+  { intros E. destruct (args_loop_total2 toks scope (loop_fuel toks) 1 (skip_ws toks i0 + 1) 1 E v) as [[a [i1 [d [E1 [v1 [R Q]]]]]]|[m R]];
+      [lia | unfold loop_fuel, zlen; lia | |].
+    - rewrite R. cbn [bind]. destruct (a >? 4) eqn:A; [|left; eexists; reflexivity].
+      destruct Q as [[-> _]|Q]; [discriminate|].
+      destruct (peek_in_range toks (i1 - 1)) as [t P]; [lia|]. rewrite P.
+      destruct (peek toks i1); cbn [or_tok emit bind]; left; eexists; reflexivity.
+    - rewrite R. right. eexists. reflexivity. }
+  destruct (is_false (check1 toks i0 (s "LPARENTHESIS"))) eqn:F; [|apply Tail].
+  unfold check1 in F. destruct (peek toks i0); [|discriminate]. cbn [emit bind]. apply Tail.
 Qed.
 
 (* ================================================================== the scope operations *)
